@@ -93,7 +93,7 @@ Inductive task :=
 | TSvcVisit (rest : list sid) (interval : Z) (t : timer)
 | THandler (s : sid) (payload : N) (a : hact)
 | TCloseOne (s : sid) (parent : tid)
-| TWaitAll (a : aid) (pending : list tid).
+| TWaitAll (a : aid) (pending : list tid) (sids : list sid).
 
 Record tentry := { t_task : task; t_tout : bool }.
 
@@ -161,6 +161,7 @@ Definition gconn (c : cid) : M conn := fun s => (match alookup c (conns s) with 
 Definition pconn (c : cid) (x : conn) : M unit := modst (fun s => set_conns (aset c x (conns s)) s).
 Definition in_table (i : sid) : M bool := fun s => (nmem i (table s), s, []).
 Definition del_table (i : sid) : M unit := modst (fun s => set_table (nrem i (table s)) s).
+Fixpoint del_tables (l : list sid) : M unit := match l with [] => ret tt | i :: r => del_table i ;;; del_tables r end.
 
 (* sess field setters *)
 Definition w_q v (x : sess) := {| s_q := v; s_unfin := s_unfin x; s_getters := s_getters x; s_joiners := s_joiners x; s_lastp := s_lastp x;
@@ -220,7 +221,7 @@ Definition new_timer (dt : Z) : M timer :=
 Definition waiter_of (t : tid) (e : tid * tentry) : option tid :=
   match t_task (snd e) with
   | TWsJoinW _ _ _ w _ => if N.eqb w t then Some (fst e) else None
-  | TWaitAll _ pend => if nmem t pend then Some (fst e) else None
+  | TWaitAll _ pend _ => if nmem t pend then Some (fst e) else None
   | _ => None
   end.
 Definition finish (me : tid) : M unit :=
@@ -701,11 +702,12 @@ Inductive api := ApiSend (i : sidref) (m : N) | ApiDisconnect (i : option sidref
 (* threaded disconnect(): one session after the other, each with close(wait=True) *)
 Fixpoint disc_seq (fuel : nat) (me : tid) (a : aid) (l : list sid) : M unit :=
   match l with
-  | [] => modst (set_table []) ;;; emit (OApi a ARet) ;;; finish me
+  | [] => emit (OApi a ARet) ;;; finish me
   | i :: r =>
     w <- close_wait i RServer ;;
     if w then (upd i (fun ss => w_joiners (s_joiners ss ++ [me]) ss) ;;; block me (TJoin i (JApiSeq a r)))
-    else match fuel with O => emit OOutOfFuel | S f => disc_seq f me a r end
+    else del_table i ;;;                     (* only the sessions that were closed leave the table (fix D37) *)
+         match fuel with O => emit OOutOfFuel | S f => disc_seq f me a r end
   end.
 Fixpoint spawn_closers (me : tid) (l : list sid) : M (list tid) :=
   match l with [] => ret [] | i :: r => t <- spawn (TCloseOne i me) ;; ts <- spawn_closers me r ;; ret (t :: ts) end.
@@ -732,7 +734,7 @@ Definition run_api (me : tid) (a : aid) (x : api) : M unit :=
     if q_concurrent_disc (c_quirks cfg) then
       match table s with
       | [] => emit (OApi a ARet) ;;; finish me
-      | tb => ts <- spawn_closers me tb ;; block me (TWaitAll a ts)
+      | tb => ts <- spawn_closers me tb ;; block me (TWaitAll a ts tb)
       end
     else disc_seq (S (length (table s))) me a (table s)
   | ApiTransport ref =>
@@ -778,7 +780,7 @@ Definition run_task (me : tid) (e : tentry) : M unit :=
          | JHandler => del_table i ;;; finish me
          | JCloser => finish me
          | JApiOne a => del_table i ;;; emit (OApi a ARet) ;;; finish me
-         | JApiSeq a rest => disc_seq (S (length rest)) me a rest
+         | JApiSeq a rest => del_table i ;;; disc_seq (S (length rest)) me a rest
          end
   | TPingStart i => upd i (w_lastp None) ;;; t <- new_timer I ;; block me (TPing i t)
   | TPing i _ => ping_fire me i
@@ -789,11 +791,11 @@ Definition run_task (me : tid) (e : tentry) : M unit :=
   | TCloseOne i parent =>
     w <- close_wait i RServer ;;
     if w then (upd i (fun ss => w_joiners (s_joiners ss ++ [me]) ss) ;;; block me (TJoin i JCloser)) else finish me
-  | TWaitAll a pend =>
+  | TWaitAll a pend sids =>
     s <- getst ;;
     if existsb (fun t => match alookup t (tasks s) with Some _ => true | None => false end) pend
-    then block me (TWaitAll a pend)
-    else modst (set_table []) ;;; emit (OApi a ARet) ;;; finish me
+    then block me (TWaitAll a pend sids)
+    else del_tables sids ;;; emit (OApi a ARet) ;;; finish me
   end.
 
 (* ---- scheduler ---- *)
